@@ -1,4 +1,4 @@
-(* Theorems about the item model.  The state space of one item is finite (11 232 states x 192 environments x 7 transport
+(* Theorems about the item model.  The state space of one item is finite (22 464 states x 192 environments x 7 transport
    behaviours x every crash point), so each statement is decided by evaluating a boolean checker over the complete enumerations
    (vm_compute) and lifted to a universally quantified statement through forallb_forall and the completeness lemmas below. *)
 From Coq Require Import List NArith Bool Arith Lia.
